@@ -95,27 +95,43 @@ CoreV2Differs(o, m) ==
     \/ (m.k = "err" /\ (o.e # m.e \/ o.a # m.a \/ o.b # m.b \/ o.inc # m.inc))
     \/ (m.k = "ok" /\ (o.cmd # m.cmd \/ o.tr # m.tr \/ o.addr # m.addr \/ o.raw # m.raw))
 
+(* (flat byte strings on the model side: long headers are compared without re-encoding them) *)
+CoreV2DiffersFlat(o, m) ==
+    \/ o.k # m.k
+    \/ (m.k = "err" /\ (o.e # m.e \/ o.a # m.a \/ o.b # m.b \/ o.inc # (m.e \in V2!IncompleteKinds)))
+    \/ (m.k = "ok" /\ (o.cmd # m.cmd \/ o.tr # m.tr \/ ~SameAddr(o.addr, m.addr) \/ Flat(o.raw) # m.raw))
+
 DriftFails(b, v) ==
-    LET m == ModelVerdict(b)
-        skip(o) == o.k \in {"panic", "none"}
-        v1(e, withHdr) == IF skip(v[e]) THEN {}
-                          ELSE IF v[e].k = "na" \/ m[e].k = "na" THEN (IF v[e].k # m[e].k THEN {<< "DRIFT", "applicability", e >>} ELSE {})
-                          ELSE IF CoreV1Differs(v[e], m[e], withHdr) THEN {<< "DRIFT", "v1-outcome", e >>} ELSE {}
-        two == IF skip(v["v2"]) THEN {} ELSE IF CoreV2Differs(v["v2"], m["v2"]) THEN {<< "DRIFT", "v2-outcome", "v2" >>} ELSE {}
-        views == IF skip(v["v2"]) \/ v["v2"].k # "ok" \/ m["v2"].k # "ok" \/ v["v2"].vw.k # "ok" THEN {}
-                 ELSE IF \E f \in {"length", "len", "is_empty", "af", "ab", "tb", "raw", "alen", "aempty", "afsize"} : v["v2"].vw[f] # m["v2"].vw[f]
-                      THEN {<< "DRIFT", "v2-views", "v2" >>} ELSE {}
-        v1views(e) == IF skip(v[e]) \/ v[e].k # "ok" \/ m[e].k # "ok" THEN {}
-                      ELSE IF \E f \in {"protocol", "astr", "disp", "adisp"} : v[e].vw[f] # m[e].vw[f]
-                           THEN {<< "DRIFT", "v1-views", e >>} ELSE {}
+    LET skip(o) == o.k \in {"panic", "none"}
+        text == Utf8Valid(b)
+        mb == V1Full(V1!ParseBytesM(b), TRUE)
+        ms == V1Full(V1!ParseStrM(b), TRUE)
+        m2 == V2!Parse(b)
+        v1(e, m, withHdr) ==
+            IF skip(v[e]) THEN {}
+            ELSE IF v[e].k = "na" \/ (e # "v1b" /\ ~text) THEN (IF (v[e].k = "na") # (e # "v1b" /\ ~text) THEN {<< "DRIFT", "applicability", e >>} ELSE {})
+            ELSE IF CoreV1Differs(v[e], m, withHdr) THEN {<< "DRIFT", "v1-outcome", e >>} ELSE {}
+        two == IF skip(v["v2"]) THEN {} ELSE IF CoreV2DiffersFlat(v["v2"], m2) THEN {<< "DRIFT", "v2-outcome", "v2" >>} ELSE {}
+        views ==
+            IF skip(v["v2"]) \/ v["v2"].k # "ok" \/ m2.k # "ok" \/ v["v2"].vw.k # "ok" THEN {}
+            ELSE LET w == v["v2"].vw
+                     raw == m2.raw
+                 IN  IF Flat(w.ab) # V2!ViewAddressBytes(raw) \/ Flat(w.tb) # V2!ViewTlvBytes(raw) \/ Flat(w.raw) # raw
+                        \/ w.length # V2!ViewLength(raw) \/ w.len # Len(raw) \/ w.is_empty \/ w.af # m2.addr.k
+                        \/ w.tlvs_len # (Len(V2!ViewTlvBytes(raw)) % 65536) \/ w.tlvs_empty # (V2!ViewTlvBytes(raw) = << >>) \/ ~w.tlvs_bytes_eq
+                     THEN {<< "DRIFT", "v2-views", "v2" >>} ELSE {}
+        v1views(e, m) ==
+            IF skip(v[e]) \/ v[e].k # "ok" \/ m.k # "ok" THEN {}
+            ELSE IF \E f \in {"protocol", "astr", "disp", "adisp"} : v[e].vw[f] # m.vw[f]
+                 THEN {<< "DRIFT", "v1-views", e >>} ELSE {}
         a == v["auto"]
-        ma == m["auto"]
+        useV1 == m2.k = "err" /\ m2.e \notin V2!IncompleteKinds
         auto == IF skip(a) THEN {}
-                ELSE IF a.tag # ma.tag \/ a.inc # ma.inc
-                        \/ (ma.tag = "V1" /\ a.tag = "V1" /\ CoreV1Differs(a.r, ma.r, TRUE))
-                        \/ (ma.tag = "V2" /\ a.tag = "V2" /\ CoreV2Differs(a.r, ma.r))
+                ELSE IF a.tag # (IF useV1 THEN "V1" ELSE "V2")
+                        \/ (useV1 /\ (CoreV1Differs(a.r, mb, TRUE) \/ a.inc # mb.inc))
+                        \/ (~useV1 /\ (CoreV2DiffersFlat(a.r, m2) \/ a.inc # (m2.k = "err" /\ m2.e \in V2!IncompleteKinds)))
                      THEN {<< "DRIFT", "auto-outcome", "auto" >>} ELSE {}
-    IN  v1("v1b", TRUE) \cup v1("v1s", TRUE) \cup v1("v1fh", TRUE) \cup v1("v1fa", FALSE) \cup two \cup views
-        \cup v1views("v1b") \cup v1views("v1s") \cup auto
+    IN  v1("v1b", mb, TRUE) \cup v1("v1s", ms, TRUE) \cup v1("v1fh", ms, TRUE) \cup v1("v1fa", ms, FALSE) \cup two \cup views
+        \cup v1views("v1b", mb) \cup (IF text THEN v1views("v1s", ms) ELSE {}) \cup auto
 
 =============================================================================
